@@ -266,6 +266,11 @@ def r2_ledger(ctx):
                     else:
                         desc = "err-other"
         kinds.setdefault(desc, []).append(s)
+    # the two refusals (error response / undecodable id) may share one failure branch that reports whichever error it was
+    if not kinds.get("err-call") and len(kinds.get("err-other", [])) == 1:
+        kinds["err-call"] = kinds["err-other"]
+    elif not kinds.get("err-other") and len(kinds.get("err-call", [])) == 1:
+        kinds["err-other"] = kinds["err-call"]
     need = {"ok-response": "call-answered", "err-call": "subscribe-refused-error", "err-other": "subscribe-refused-malformed-id", "err-invalid-sub-id": "subscribe-refused-duplicate-id", "ok-tuple": "subscribe-accepted"}
     for k, label in need.items():
         if len(kinds.get(k, [])) != 1:
